@@ -327,3 +327,57 @@ theorem comps_render (l : Loc) (hl : ∀ c ∈ l, Clean c) : comps (render l) = 
   rw [comps_cons_sep, comps_joinSep l hl]
 
 end IrVerif.Path
+
+namespace IrVerif.Path
+
+/-- what a successful walk (following links) from a chain ends at exists and is not a symbolic link -/
+theorem walk_node (fs : FS) : ∀ (f : Nat) (comps : List Str) (cur l : Loc),
+    walk fs f cur comps true = some l → (∀ c ∈ comps, '/' ∉ c) → Chain fs cur →
+    (∃ n, fs.get cur = some n ∧ ∀ t, n ≠ Node.link t) →
+    ∃ n, fs.get l = some n ∧ ∀ t, n ≠ Node.link t := by
+  intro f
+  induction f using Nat.strongRecOn with
+  | _ f ihf =>
+    intro comps
+    induction comps with
+    | nil => intro cur l h _ _ hn; rw [walk_nil] at h; cases h; exact hn
+    | cons c rest ih =>
+      intro cur l h hns hc _
+      obtain ⟨hd, st⟩ := walk_cons_inv fs f cur c rest l h
+      have hrd : RealDir fs cur := ⟨hc, hd⟩
+      have hns' : ∀ c ∈ rest, '/' ∉ c := fun x hx => hns x (by simp [hx])
+      cases st with
+      | skip h1 hw => exact ih _ _ hw hns' hc ⟨Node.dir, hd, by intro t; simp⟩
+      | up h2 hw => exact ih _ _ hw hns' hrd.dropLast.1 ⟨Node.dir, hrd.dropLast.2, by intro t; simp⟩
+      | plain n h1 h2 hn hnl hw =>
+        have hcl : Clean c := ⟨fun e => h1 (Or.inl e), fun e => h1 (Or.inr e), h2, hns c (by simp)⟩
+        exact ih _ _ hw hns' (Chain.snoc hrd hcl) ⟨n, hn, hnl⟩
+      | link t f' h1 h2 hn hf hw =>
+        subst hf
+        have hs : Chain fs (startLoc cur t) ∧ ∃ n, fs.get (startLoc cur t) = some n ∧ ∀ t', n ≠ Node.link t' := by
+          unfold startLoc; split
+          · exact ⟨(RealDir.root fs).1, Node.dir, fs.get_root, by intro t; simp⟩
+          · exact ⟨hc, Node.dir, hd, by intro t; simp⟩
+        refine ihf f' (by omega) _ _ _ hw ?_ hs.1 hs.2
+        intro x hx
+        rcases List.mem_append.mp hx with hx | hx
+        · exact splitSep_noSep t x hx
+        · exact hns' x hx
+
+/-- `os.path.realpath` is idempotent on what the kernel resolves: the rendering of the location a path
+resolves to is a fixed point (for every recursion bound at or above the kernel's) -/
+theorem realpath_fixed_of_kresolve (fs : FS) (kf pf : Nat) (cwd : Loc) (hcwd : RealDir fs cwd) (p : Str)
+    (l : Loc) (h : kresolve fs kf cwd p true = some l) (hpf : kf ≤ pf) :
+    realpath fs kf pf (render cwd) cwd (render l) = render l := by
+  have hchain := (realpath_of_kresolve fs kf pf cwd hcwd p kf l h hpf).2
+  obtain ⟨n, hn, hnl⟩ : ∃ n, fs.get l = some n ∧ ∀ t, n ≠ Node.link t := by
+    unfold kresolve at h
+    split at h
+    · exact absurd h (by simp)
+    · refine walk_node fs kf _ _ l h (splitSep_noSep p) (startLoc_chain fs cwd hcwd p) ?_
+      unfold startLoc; split
+      · exact ⟨Node.dir, fs.get_root, by intro t; simp⟩
+      · exact ⟨Node.dir, hcwd.2, by intro t; simp⟩
+  exact (realpath_of_kresolve fs kf pf cwd hcwd (render l) kf l (kresolve_render fs kf cwd l hchain n hn hnl) hpf).1
+
+end IrVerif.Path
